@@ -347,5 +347,6 @@ class ExactGP(GP):
                 ) = self.prediction_strategy.exact_prediction(full_mean, full_covar)
 
             # Reshape predictive mean to match the appropriate event shape
-            predictive_mean = predictive_mean.view(*batch_shape, *test_shape).contiguous()
+            # (targets or noise may carry batch dimensions that the joint prior lacks)
+            predictive_mean = predictive_mean.view(*predictive_mean.shape[:-1], *test_shape).contiguous()
             return full_output.__class__(predictive_mean, predictive_covar)
